@@ -961,6 +961,13 @@ class ExprMixin:
         """Iterate a value: its abstract sequence, or an implicit TypeError."""
         s = self.maybe_seq(v, state)
         if s is not None:
+            if (isinstance(v, Ptr) and isinstance(s.elem, Num) and (s.elem.sym is None or sym_has_star(s.elem.sym)) and s.elem.const is None and s.fixed is None
+                    and not (s.flags & {"reordered", "building", "weak-append", "unmodelled"}) and all(i[0] in ("v", "c", "perm") for i in v.idx)):
+                c = state.heap.get(v.loc)
+                if c is not None and isinstance(c.obj, ListObj) and c.obj.build is None:
+                    # value numbering of list elements met by iteration, as for subscript reads: same list, same position, no
+                    # intervening mutation (`for x in xs` / `zip(xs, ...)` then name what `xs[k]` names)
+                    s = replace(s, elem=replace(s.elem, sym=("elem", v.loc + f"#v{self.list_version.get(v.loc, 0)}", v.idx, ivar(s.kvar))))
             return s
         if isinstance(v, Ptr):
             d = self.deref(state, v)
